@@ -109,8 +109,14 @@ def corpus_main() -> None:
     cases = json.load(open(sys.argv[2]))
     W.preload()
     res = []
+    seed = int(os.environ.get("PYTHONHASHSEED", "0") or 0)
     for case in cases:
-        base = tempfile.mkdtemp(prefix="c10c-", dir=os.environ.get("VERIF_SCRATCH") or None)
+        # same LENGTH of the scratch path under every seed: cache records are compared with the path blanked out
+        # the SAME scratch path under every seed (seeds run one after the other): interface hashes cover the absolute
+        # path of modules found through the search path
+        base = os.path.join(os.environ.get("VERIF_SCRATCH") or tempfile.gettempdir(), "c10c-%05d" % case.get("idx", 0))
+        shutil.rmtree(base, ignore_errors=True)
+        os.makedirs(base)
         try:
             res.append(C.outputs_case(case, base))
         except BaseException as e:
